@@ -1,5 +1,5 @@
 """C08 (power levels part): defaults, level getters, check_room_power_levels per-field body, check_power_level_maps per-key body."""
-import itertools
+import itertools, re
 from .. import dex as D, authmodel as A, mir as M
 from . import util as U
 
@@ -9,7 +9,66 @@ FIELD_KEYS = {"UsersDefault": "users_default", "EventsDefault": "events_default"
               "Kick": "kick", "Invite": "invite"}
 
 
+SIGNS = {"unsigned": {"+"}, "signed": {"+", "-"}}
+
+
+def string_level_rule(ctx, w):
+    """Room versions 1-9 accept a power level written as a string that is an integer: surrounding whitespace, ONE optional sign, digits.
+    Rust's integer parsers accept a sign themselves (`+` for unsigned types, `+`/`-` for signed ones), so wherever the visitor strips a sign
+    before parsing, the remainder must be kept from starting with a sign the parser would take again (`"++5"`, `"+-5"`)."""
+    rule = "C08.string-levels"
+    ctx.rule(rule, "deserialize_v1_powerlevel::visit_str: no accepting path parses a string from which a sign has already been stripped with a parser "
+                   "that accepts a sign, unless the path excludes a second sign")
+    from . import panic_common as PC
+    import json as _json
+    cands = [g for g in w.all_fns() if "deserialize_v1_powerlevel" in g["path"] and g["path"].endswith("visit_str") and "body" in g]
+    if len(cands) != 1:
+        ctx.missing(rule, f"{rule}:visit_str", "the string visitor of deserialize_v1_powerlevel was not found")
+        return
+    g = cands[0]
+    body = g["body"]
+    defs = PC.roots(body)
+    parses = []
+    for _, c in M.calls(body):
+        n = M.callee_name(c)
+        if n.rsplit("::", 1)[-1] in ("parse", "from_str", "from_str_radix") and c["args"]:
+            ty = " ".join(c.get("fnargs") or []) + " " + n
+            kind = "unsigned" if re.search(r"\b(UInt|u8|u16|u32|u64|u128|usize)\b", ty) else ("signed" if re.search(r"\b(Int|i8|i16|i32|i64|i128|isize)\b", ty) else None)
+            arg = _json.dumps(PC.expr(body, defs, c["args"][0]))
+            stripped = bool(re.search(r"strip_prefix|trim_start_matches|trim_left_matches|split_at|\[1\.\.|get\(", arg)) or '"local"' in arg
+            parses.append((kind, stripped, c["line"]))
+    ctx.floor("integer parses in deserialize_v1_powerlevel::visit_str", len(parses), 1)
+    dex = D.Dex(w.lookup, adt_discr=w.adt_discr, inline=lambda n: "{closure" in n)
+    okp = [p for p in dex.paths(g, [D.sym("self"), D.sym("v")]) if p.kind == "ret" and D.show(p.ret).startswith("Result::Ok(")]
+    bad = []
+    for kind, stripped, line in parses:
+        if not stripped:
+            continue
+        if kind is None:
+            bad.append((line, "a parser of unknown type"))
+            continue
+        # every accepting path through the stripped parse must exclude all of the parser's signs
+        paths_with = [p for p in okp if any("strip_prefix(" in D.show_atom(a) and t and "Some" in D.show_atom(a) for a, t in p.conds)] or okp
+        worst = set()
+        for p in paths_with:
+            excl = set()
+            for a, t in p.conds:
+                sa = D.show_atom(a)
+                m = re.match(r"^str::starts_with\(.*(?:strip_prefix|trim_start_matches)\(.*, (.*)\)$", sa)
+                if m and not t:
+                    excl |= {ch for ch in "+-" if ch in m.group(1)}
+                if re.match(r"^(?:\w+::)*is_ascii_digit\(", sa) and ("strip_prefix" in sa or "trim_start" in sa) and t:
+                    excl |= {"+", "-"}
+            worst |= SIGNS[kind] - excl
+        if worst:
+            bad.append((line, f"the {kind} parser takes a second {sorted(worst)}"))
+    ctx.check(not bad, rule, f"{rule}:single-sign", w.where(g),
+              bad_msg=f"a power level string with two signs is accepted: after a sign has been stripped, {bad} (e.g. \"++5\" or \"+-5\" is read as a number; the "
+                      f"specification's string form has one optional sign)")
+
+
 def run(ctx, w, spec, versions):
+    string_level_rule(ctx, w)
     rule = "C08.levels"
     ctx.rule(rule, "default levels (ban/kick/redact/state_default 50, invite/events_default/users_default 0, creator 100 without a power-levels event), "
                    "field names, and the fallbacks of user_power_level / event_power_level / get_as_int_or_default equal the specification's")
